@@ -57,6 +57,20 @@ Theorem C14_unguarded_refuted :
 Proof. exact unguarded_bag_refuted. Qed.
 Print Assumptions C14_unguarded_refuted.
 
+(** by-value iterator sources (items are moved out of the user's iterator by [next()]): every
+    element yielded so far belongs to exactly one worker and, when all threads have finished, has
+    been processed or abandoned (dropped with that worker's buffer) exactly once; what was never
+    yielded stays inside the iterator *)
+Theorem C14_iterator_elements_at_most_once :
+  forall (r : Runner) (len : nat) (ordered : bool) (stop panics : nat -> bool) (sched : list nat),
+  runner_wf r -> iall_done (imrunp r len ordered stop panics sched) ->
+  Permutation (flat_map iseen (iws (imrunp r len ordered stop panics sched))
+               ++ flat_map iaband (iws (imrunp r len ordered stop panics sched)))
+              (seq 0 (ifront (imrunp r len ordered stop panics sched)))
+  /\ ifront (imrunp r len ordered stop panics sched) <= len.
+Proof. intros r len ordered stop panics sched Hw Hd. apply imrunp_source_accounting; assumption. Qed.
+Print Assumptions C14_iterator_elements_at_most_once.
+
 (** worker 1 panics at position 2 while worker 2 keeps going; everything is accounted for *)
 Example C14_example :
   let r := mkRunner (Some 8%N) 2%N (RExact 2%N) in
